@@ -11,7 +11,17 @@ KEYS = ["ROOTS", "EORD", "RET", "N", "CYC"]
 ALGS = ["signed", "fvs", "iso"]
 
 
+def dense_small(rng):
+    """a small dense graph with distinct-ish weights 1..100 and random edge order / orientation: supports with three and more entries while n is small"""
+    n = rng.randint(5, 8)
+    pairs = [(u, v) for u in range(n) for v in range(u + 1, n)]; rng.shuffle(pairs)
+    m = rng.randint(n + 2, min(len(pairs), 2 * n + 3))
+    return (n, [((u, v) if rng.random() < 0.5 else (v, u)) + (rng.randint(1, 100),) for (u, v) in pairs[:m]])
+
+
 def gen_graph(rng, maxn):
+    if maxn >= 8 and rng.random() < 0.2:
+        return dense_small(rng), "dense-small"
     g = gen.structural(rng, maxn)
     g, style = gen.weigh(rng, g)
     return g, style
@@ -42,11 +52,7 @@ def alg_cases(rng, tier):
     # small, searches are pruned by the running limit and come back empty — the inputs on which the bookkeeping of the hidden-edge heuristic matters
     # (seeded changes C08/r3m2, C02/r4m2, r5m2, r6m2: the erase of the processed signed edge skipped after an empty search)
     for i in range(900 if tier == "quick" else 6000):
-        n = rng.randint(5, 8)
-        pairs = [(u, v) for u in range(n) for v in range(u + 1, n)]; rng.shuffle(pairs)
-        m = rng.randint(n + 2, min(len(pairs), 2 * n + 3))
-        es = [((u, v) if rng.random() < 0.5 else (v, u)) + (rng.randint(1, 100),) for (u, v) in pairs[:m]]
-        g = (n, es)
+        g = dense_small(rng)
         cases.append(("A signed %s 0 %s" % ("I" if i % 4 == 0 else "D", gen.graph_tokens(g)), g, "dense-small"))
     return cases
 
